@@ -3,11 +3,16 @@ package main
 // verif:needs c01 c10 c02
 
 // C14: the eight board symmetries commute with the rules.
-// CASE <enc p> ; <move> | for each entry of Symmetries(p): <sym index>:<abs image>:<transformed move>:<class + abs result>
+// CASE <enc p> ; <move> ; <Config().Pieces> <Config().Capstones> |
+//   for each entry of Symmetries(p): <sym index>:<abs image>:<tie-break flag of the image>:<WinDetails of the image>:<transformed move>:<class + abs result + WinDetails>
 //   joined by " # ", then " @ " <result of the original move>
+// The positions come from games and boards under DEFAULT and CUSTOM configurations (reduced and enlarged piece sets, extra
+// capstones on small boards, BlackWinsTies): Symmetries rebuilds every image with p.Config(), and the model does the same
+// (coq/SymmetryCfg.v).
 
 import (
 	"fmt"
+	"math/rand"
 	"strings"
 
 	"github.com/nelhage/taktician/symmetry"
@@ -26,7 +31,7 @@ func transformable(m tak.Move) bool {
 func moveResult(p *tak.Position, m tak.Move) (string, *tak.Position) {
 	r := applyMove(p, m)
 	if r.next != nil {
-		return "OK " + encAbs(r.next), r.next
+		return "OK " + encAbs(r.next) + " " + overStr(r.next), r.next
 	}
 	return r.class, nil
 }
@@ -37,8 +42,10 @@ func overStr(p *tak.Position) string {
 }
 
 func emitC14(c *ctx, p *tak.Position, m tak.Move) {
+	cfg := p.Config()
+	input := fmt.Sprintf("%s ; %s ; %d %d", enc(p), encMove(m), cfg.Pieces, cfg.Capstones)
 	fail := func(cls, did, want string) {
-		c.printf("ORACLE-FAIL %s | %s ; %s | %s | %s\n", cls, enc(p), encMove(m), did, want)
+		c.printf("ORACLE-FAIL %s | %s | %s | %s\n", cls, input, did, want)
 	}
 	var syms []symmetry.PositionAndSymmetry
 	var err error
@@ -90,7 +97,12 @@ func emitC14(c *ctx, p *tak.Position, m tak.Move) {
 		} else if transformable(m) {
 			fail("transform-move-panic", "TransformMove panicked", "a transformable move is transformed")
 		}
-		parts = append(parts, fmt.Sprintf("%d:%s:%s:%s", idx, encAbs(ps.P), tmStr, res))
+		parts = append(parts, fmt.Sprintf("%d:%s:%d:%s:%s:%s", idx, encAbs(ps.P), b2i(ps.P.Config().BlackWinsTies), overStr(ps.P), tmStr, res))
+		// the image is a position of the same game: same piece set, same tie-break rule
+		if ic := ps.P.Config(); ic.Size != cfg.Size || ic.Pieces != cfg.Pieces || ic.Capstones != cfg.Capstones || ic.BlackWinsTies != cfg.BlackWinsTies {
+			fail("image-config-differs", fmt.Sprintf("sym %d: image configuration size %d pieces %d capstones %d blackWinsTies %v", idx, ic.Size, ic.Pieces, ic.Capstones, ic.BlackWinsTies),
+				fmt.Sprintf("the configuration of the position: size %d pieces %d capstones %d blackWinsTies %v", cfg.Size, cfg.Pieces, cfg.Capstones, cfg.BlackWinsTies))
+		}
 		// pairing and images
 		if idx < 0 {
 			fail("unknown-symmetry", "S is not one of the eight maps", "each image is paired with the transform that produces it")
@@ -119,11 +131,118 @@ func emitC14(c *ctx, p *tak.Position, m tak.Move) {
 	c.stat(fmt.Sprintf("distinct_images_%d", len(distinct)), 1)
 	c.stat(fmt.Sprintf("size%d", n), 1)
 	c.stat("move_"+strings.Fields(origRes)[0], 1)
-	c.printf("CASE %s ; %s | %s @ %s\n", enc(p), encMove(m), strings.Join(parts, " # "), origRes)
+	if cfg.Pieces != c14DefaultPieces[n] || cfg.Capstones != c14DefaultCaps[n] {
+		c.stat("custom_piece_counts", 1)
+		if cfg.Pieces < c14DefaultPieces[n] {
+			c.stat("custom_fewer_stones", 1)
+		} else if cfg.Pieces > c14DefaultPieces[n] {
+			c.stat("custom_more_stones", 1)
+		}
+		if cfg.Capstones > c14DefaultCaps[n] {
+			c.stat("custom_more_capstones", 1)
+		}
+	}
+	if cfg.BlackWinsTies {
+		c.stat("black_wins_ties", 1)
+	}
+	if d := p.WinDetails(); d.Over && d.Reason == tak.FlatsWin && d.WhiteFlats == d.BlackFlats {
+		c.stat("tied_flat_count", 1)
+		if cfg.BlackWinsTies {
+			c.stat("tied_flat_count_black_wins", 1)
+		}
+	}
+	if origNext != nil {
+		if d := origNext.WinDetails(); d.Over && d.Reason == tak.FlatsWin && d.WhiteFlats == d.BlackFlats {
+			c.stat("move_into_tied_flat_count", 1)
+		}
+	}
+	c.printf("CASE %s | %s @ %s\n", input, strings.Join(parts, " # "), origRes)
 }
 
-// defaultize rebuilds a constructed board under the DEFAULT configuration of its size (the model of Symmetries
-// rebuilds images with the default piece counts); nil if the board uses more pieces than the defaults provide.
+var c14DefaultPieces = []int{0, 0, 0, 10, 15, 21, 30, 40, 50}
+var c14DefaultCaps = []int{0, 0, 0, 0, 0, 1, 1, 2, 2}
+
+// c14Cfg: a custom configuration: reduced piece sets (games that end by an exhausted reserve, often with tied flat counts),
+// enlarged ones, extra capstones on small boards, BlackWinsTies in half of them.
+func c14Cfg(r *rand.Rand, size int) tak.Config {
+	cfg := tak.Config{Size: size, BlackWinsTies: r.Intn(2) == 0}
+	switch r.Intn(4) {
+	case 0: // very few stones: the game is over after a handful of plies
+		cfg.Pieces = 2 + r.Intn(4)
+		cfg.Capstones = r.Intn(3)
+	case 1: // reduced
+		cfg.Pieces = 3 + r.Intn(c14DefaultPieces[size]-3)
+		cfg.Capstones = r.Intn(2)
+	case 2: // enlarged, extra capstones
+		cfg.Pieces = c14DefaultPieces[size] + 1 + r.Intn(20)
+		cfg.Capstones = c14DefaultCaps[size] + 1 + r.Intn(3)
+	default: // only the flag / only the capstones differ
+		if r.Intn(2) == 0 {
+			cfg.Capstones = c14DefaultCaps[size] + 1 + r.Intn(2)
+		}
+	}
+	return cfg
+}
+
+// tieBoard: a full board (game over by flat count) with EQUAL flat counts: a draw, or Black's win under BlackWinsTies.
+// Walls, capstones and captives make up the rest; the piece counts are fitted (sometimes exactly).
+// With hole: one of Black's flats is still in the reserve and Black is to move: placing it (the move returned) ends the game
+// with tied flat counts.
+func tieBoard(r *rand.Rand, size int, hole bool) (*tak.Position, *tak.Move) {
+	nsq := size * size
+	f := 1 + r.Intn(nsq/2)
+	kinds := make([]tak.Piece, 0, nsq)
+	for i := 0; i < f; i++ {
+		kinds = append(kinds, tak.MakePiece(tak.White, tak.Flat), tak.MakePiece(tak.Black, tak.Flat))
+	}
+	caps := [2]int{}
+	for len(kinds) < nsq {
+		ci := r.Intn(2)
+		col := []tak.Color{tak.White, tak.Black}[ci]
+		if caps[ci] < 2 && r.Intn(4) == 0 {
+			caps[ci]++
+			kinds = append(kinds, tak.MakePiece(col, tak.Capstone))
+		} else {
+			kinds = append(kinds, tak.MakePiece(col, tak.Standing))
+		}
+	}
+	r.Shuffle(len(kinds), func(i, j int) { kinds[i], kinds[j] = kinds[j], kinds[i] })
+	board := make([][]tak.Square, size)
+	for y := range board {
+		board[y] = make([]tak.Square, size)
+		for x := range board[y] {
+			sq := tak.Square{kinds[x+y*size]}
+			if r.Intn(5) == 0 {
+				for j := 0; j < 1+r.Intn(3); j++ {
+					sq = append(sq, tak.MakePiece([]tak.Color{tak.White, tak.Black}[r.Intn(2)], tak.Flat))
+				}
+			}
+			board[y][x] = sq
+		}
+	}
+	cfg := tak.Config{Size: size, BlackWinsTies: r.Intn(3) != 0}
+	fitReserves(r, &cfg, board)
+	ply := 2 + r.Intn(40)
+	var last *tak.Move
+	if hole {
+		for t := 0; t < 200 && last == nil; t++ {
+			x, y := r.Intn(size), r.Intn(size)
+			if sq := board[y][x]; len(sq) == 1 && sq[0] == tak.MakePiece(tak.Black, tak.Flat) {
+				board[y][x] = nil
+				last = &tak.Move{X: int8(x), Y: int8(y), Type: tak.PlaceFlat}
+				ply |= 1
+			}
+		}
+	}
+	p, err := tak.FromSquares(cfg, board, ply)
+	if err != nil {
+		return nil, nil
+	}
+	return p, last
+}
+
+// defaultize rebuilds a constructed board under the DEFAULT configuration of its size; nil if the board uses more pieces
+// than the defaults provide.
 func defaultize(p *tak.Position) *tak.Position {
 	size := p.Size()
 	pieces := []int{0, 0, 0, 10, 15, 21, 30, 40, 50}[size]
@@ -185,26 +304,49 @@ func runC14(c *ctx) {
 	if c.tier == "replay" {
 		parts := strings.Split(readReplay(c).Input, ";")
 		if p, err := decodeEnc(parts[0]); err == nil && len(parts) > 1 {
+			if len(parts) > 2 {
+				// the configuration of the position: rebuild under it, then restore the raw reserves
+				var pieces, capstones int
+				fmt.Sscan(parts[2], &pieces, &capstones)
+				ws, wc, bs, bc := tak.VerifReserves(p)
+				if q, err := tak.FromSquares(tak.Config{Size: p.Size(), Pieces: pieces, Capstones: capstones, BlackWinsTies: p.Config().BlackWinsTies}, boardOf(p), p.MoveNumber()); err == nil {
+					tak.VerifSetRaw(q, ws, wc, bs, bc, p.MoveNumber())
+					p = q
+				}
+			}
 			emitC14(c, p, decodeMove(parts[1]))
 		}
 		return
 	}
 	r := c.r
-	for g := 0; g < 30*c.scale; g++ {
+	for g := 0; g < 36*c.scale; g++ {
 		size := 3 + g%6
 		var ps []*tak.Position
-		if g%3 == 0 {
-			// symmetric-looking positions with stacks: axis games
-			p := tak.New(tak.Config{Size: size})
+		switch {
+		case g%3 == 0:
+			// symmetric-looking positions with stacks: axis games (legal under any configuration with at least the default
+			// counts: replayed from an enlarged / flagged configuration in half of them)
+			cfg := tak.Config{Size: size}
+			if g%2 == 0 {
+				cfg = tak.Config{Size: size, Pieces: c14DefaultPieces[size] + r.Intn(9), Capstones: c14DefaultCaps[size] + r.Intn(2), BlackWinsTies: r.Intn(2) == 0}
+			}
+			p := tak.New(cfg)
 			for _, m := range axisGame(r, size, 4+r.Intn(10), r.Intn(6)) {
-				p, _ = p.Move(m)
+				q, err := p.Move(m)
+				if err != nil {
+					break
+				}
+				p = q
 				ps = append(ps, p)
 			}
-		} else {
+		case g%3 == 1:
 			ps, _ = randomGame(r, tak.Config{Size: size}, 6+r.Intn(50), -1, r.Intn(8) == 0)
+		default:
+			// games under a custom configuration
+			ps, _ = randomGame(r, c14Cfg(r, size), 6+r.Intn(50), -1, r.Intn(8) == 0)
 		}
 		for i, p := range ps {
-			if i < 3 || r.Intn(4) == 0 {
+			if i < 3 || r.Intn(5) == 0 || (i == len(ps)-1 && g%3 == 2) {
 				for _, m := range c14Moves(c, p, 2) {
 					emitC14(c, p, m)
 				}
@@ -223,17 +365,39 @@ func runC14(c *ctx) {
 		default:
 			p = manyGroups(r, 6+b%3)
 		}
-		if p = defaultize(p); p == nil {
-			continue
+		// under the configuration the board was built with (fitted piece counts, BlackWinsTies in a third of them); every
+		// third one rebuilt under the default configuration of its size
+		if b%9 >= 6 {
+			if p = defaultize(p); p == nil {
+				continue
+			}
 		}
 		for _, m := range c14Moves(c, p, 1) {
 			emitC14(c, p, m)
 		}
 	}
-	for b := 0; b < 40*c.scale; b++ {
+	for b := 0; b < 30*c.scale; b++ {
 		size := 3 + b%6
 		p := defaultBoard(r, size)
 		for _, m := range c14Moves(c, p, 2) {
+			emitC14(c, p, m)
+		}
+	}
+	// constructed boards under fitted custom configurations (exact counts in a sixth of them: an exhausted reserve), with
+	// BlackWinsTies in a quarter; full boards with TIED flat counts (a draw, or Black's win under BlackWinsTies)
+	for b := 0; b < 30*c.scale; b++ {
+		size := 3 + b%6
+		var p *tak.Position
+		var last *tak.Move
+		if b%2 == 0 {
+			p, _, _ = constructedBoard(r, size, 1+r.Intn(8), 0.2+0.8*r.Float64())
+		} else if p, last = tieBoard(r, size, b%4 == 1); p == nil {
+			continue
+		}
+		if last != nil {
+			emitC14(c, p, *last)
+		}
+		for _, m := range c14Moves(c, p, 1) {
 			emitC14(c, p, m)
 		}
 	}
@@ -258,7 +422,11 @@ func runC14(c *ctx) {
 			board[y][x] = s1
 			board[my][mx] = s2
 		}
-		p, err := tak.FromSquares(tak.Config{Size: size}, board, 2+r.Intn(10))
+		mcfg := tak.Config{Size: size}
+		if b%2 == 1 { // the buried stones decide which images are distinct under any configuration
+			mcfg = tak.Config{Size: size, Pieces: 8 + r.Intn(60), Capstones: r.Intn(4), BlackWinsTies: r.Intn(2) == 0}
+		}
+		p, err := tak.FromSquares(mcfg, board, 2+r.Intn(10))
 		if err != nil {
 			continue
 		}
